@@ -86,35 +86,13 @@ theorem C13_named {P : Type} [DecidableEq P] (ws : List (P × P)) (ord : SetOrd 
 
 /-! ## polarity -/
 
-/-- Full statement: every translator treats the reversal flag consistently — it either swaps
-the terminals and negates exactly its amplitude argument, or does neither
-(`TrCase.polarityOK`, evaluated on the generated translator bodies). -/
-def C13_polarity_statement : Prop := ∀ t ∈ Gen.translators, translatorPolarityOK t = true
-
-/-- The current tree violates it: `complex_current_source_translator` passes
-`I = element.V if not element.is_reverse else -element.I`. -/
-theorem C13_polarity_counterexample : ¬ C13_polarity_statement := by
-  intro h
-  have := h ("complex_current_source_translator",
-    [{ guard := none, ctor := some "complex_current_source", nodes := .pairSwapIfRev,
-       args := [("I", .ifNotRev (.attr "V") (.neg (.attr "I")))] }]) (by decide)
-  revert this; decide
-
-/-- … and on the model that means: a non-reversed complex current source is not translated at
-all (`AttributeError`), whatever node names it gets. -/
-theorem C13_polarity_counterexample_sem :
-    translateSym 3 (fun _ => .ok "n")
-        { cls := "ComplexCurrentSource", name := "I1", rev := false, attrs := [("I", .num ⟨1, 2⟩)],
-            start := ⟨0, 0⟩, stop := ⟨0, 1⟩ }
-      = .error Err.attributeError := by
-  decide +kernel
-
-/-- Strongest true restriction: every other translator is consistent, and for a consistent
-translator the signed argument evaluates to the attribute value, negated exactly when the
-terminals are swapped — so the source contributes its element value from `start` to `end`
-whether or not it is marked reversed. -/
-theorem C13_polarity_partial :
-    (∀ t ∈ Gen.translators, t.1 ≠ "complex_current_source_translator" → translatorPolarityOK t = true) ∧
+/-- Every translator treats the reversal flag consistently — it either swaps the terminals and
+negates exactly its amplitude argument (`V` or `I`), or does neither (`TrCase.polarityOK`,
+evaluated on the generated translator bodies) — and for such a translator the signed argument
+evaluates to the attribute value, negated exactly when the terminals are swapped: the source
+contributes its element value from `start` to `end` whether or not it is marked reversed. -/
+theorem C13_polarity :
+    (∀ t ∈ Gen.translators, translatorPolarityOK t = true) ∧
     (∀ (π : Rat) (s : Sym) (e : VExpr),
       evalV π s (.ifNotRev e (.neg e)) = if s.rev then evalV π s (.neg e) else evalV π s e) ∧
     (∀ (rev : Bool) (a b : String) (rest : List String),
@@ -122,6 +100,16 @@ theorem C13_polarity_partial :
     (∀ (π : Rat) (s : Sym) (r : Bool) (e : VExpr), e.revFree = true →
       evalV π { s with rev := r } e = evalV π s e) :=
   ⟨by decide, evalV_signed, nodeTuple_swap, evalV_revFree⟩
+
+/-- regression (finding 1, repaired by db741a0): a non-reversed complex current source is
+translated, with its own value from `start` to `end` -/
+example :
+    translateSym 3 (fun _ => .ok "n")
+        { cls := "ComplexCurrentSource", name := "I1", rev := false, attrs := [("I", .num ⟨1, 2⟩)],
+            start := ⟨0, 0⟩, stop := ⟨0, 1⟩ }
+      = .ok (some { type := "complex_current_source", id := "I1", nodes := ["n", "n"],
+                      value := [("I_real", .num ⟨1, 0⟩), ("I_imag", .num ⟨2, 0⟩), ("G", .num ⟨0, 0⟩), ("B", .num ⟨0, 0⟩)] }) := by
+  decide +kernel
 
 /-- a reversed DC source of element value −5 between nodes a (start) and b (end) is listed from
 b to a with value +5: the same source -/
@@ -209,9 +197,10 @@ theorem C13_order (syms syms' : List Sym) (h : syms.Perm syms') :
 
 /-- The generated tables are closed and unambiguous: class names and map keys are distinct,
 every translator / constructor the map refers to was extracted, node classes carry names,
-every named symbol class (but `Admittance`) has a translator. -/
+every named symbol class (but `Admittance`) has a translator, the sine shift of a phase given in
+degrees is 90 (finding 2, repaired by 0b34a29). -/
 theorem C13_tables :
     classNamesDistinct = true ∧ translatorMapKeysDistinct = true ∧ translatorMapClosed = true ∧
-    nodeClassesNamed = true ∧ namedClassesTranslated = true := by decide
+    nodeClassesNamed = true ∧ namedClassesTranslated = true ∧ sinShiftInDegrees = true := by decide
 
 end CC
